@@ -1,9 +1,14 @@
 """C08 - per-destination exactly-once, ordered delivery; faults isolated and reported (accounting checker)."""
 
+from vf import sched
+
+sched.install()  # before eliot is imported (part 'threads' runs under the line-granular scheduler)
+
 import itertools
 import random
 
 from eliot import add_destinations, log_message, remove_destination, start_action
+from eliot import _output
 
 from vf import excs, faults, gen
 from vf.interp import Interp
@@ -19,8 +24,13 @@ RULE = ("1-4 destinations (one always-healthy reference at a random position, th
         "the identical sequence; non-report messages exactly once each; after each message its failures are reported in destination "
         "order by exactly one eliot:destination_failure each (exception=module.Class, reason=str(exc), message rendering naming the "
         "affected message's task_uuid and task_level); failures on reports produce no report; report count == failed non-report "
-        "deliveries. non-trivial = >=2 faulty destinations or a mask that hits a report; distinct by (program shape, masks)")
-ASSUMPTIONS = ["destinations raise Exception subclasses", "single-threaded: the property quantifies over fault sequences and programs"]
+        "deliveries. part 'prebuffered': a program is logged BEFORE the first add_destinations (fresh process), then the "
+        "destinations (some failing) are added and a second program runs: the same accounting over re-delivered and later messages. "
+        "part 'threads': 2-3 threads log while 1-2 destinations fail, under the line-granular scheduler (LINE events on "
+        "eliot/_output.py), all one-preemption schedules per priority order + sampled deeper ones: every destination is offered the "
+        "same set of messages once, per-thread order kept, every failed delivery reported exactly once. non-trivial = >=2 faulty destinations or a mask that hits a report; distinct by (program shape, masks)")
+ASSUMPTIONS = ["destinations raise Exception subclasses", "under concurrency only per-destination sets, per-thread order and report counts are judged "
+               "(destinations may legitimately see different total orders)"]
 EXHAUSTIVE_NOTE = "part 'enum' enumerates every failure mask over the first K calls of D destinations"
 BATCH = 100
 
@@ -36,6 +46,10 @@ def plan(tier, seed):
             specs.append({"part": "enum", "seed": seed, "D": D, "K": K, "lo": lo, "hi": min(total, lo + step)})
     for j in range(2 if tier == "quick" else 8):
         specs.append({"part": "storm", "seed": seed, "i": j})
+    for j in range(600 if tier == "quick" else 6000):
+        specs.append({"part": "prebuffered", "seed": seed, "i": j})
+    for j in range(16 if tier == "quick" else 200):
+        specs.append({"part": "threads", "seed": seed, "i": j, "tier": tier})
     return specs
 
 
@@ -158,8 +172,177 @@ def run_with(dests_spec, body, res, label, shape):
     return tape
 
 
+def part_prebuffered(spec, res):
+    """Messages logged before the first add_destinations are re-delivered by that call: faults on them count like any other."""
+    rng = random.Random("%s:C08:pre:%d" % (spec["seed"], spec["i"]))
+    g1 = gen.ProgGen(rng, max_depth=3, max_nodes=rng.choice([2, 5, 10]), value_depth=0, remote_vias=("same",))
+    g2 = gen.ProgGen(rng, max_depth=3, max_nodes=rng.choice([2, 5]), value_depth=0, remote_vias=("same",))
+    p1, p2 = g1.program(), g2.program()
+    for n in _walk(p2):
+        n["nid"] += 1000
+    tape = Tape()
+    names = []
+    dests = []
+    tape_dest.clear()
+    dspec = [("ref",)]
+    for j in range(rng.choice([1, 1, 2])):
+        desc, pred = faults.gen_mask(rng, 12)
+        ename, fac = faults.exc_factory(rng)
+        dspec.insert(rng.randint(0, len(dspec)), ("bad", pred, fac, desc + ":" + ename))
+    for j, d in enumerate(dspec):
+        name = "ref" if d[0] == "ref" else "bad%d" % j
+        obj = MaskedDestination(tape, name, (lambda i: False) if d[0] == "ref" else d[1], None if d[0] == "ref" else d[2])
+        names.append(name)
+        tape_dest[name] = obj
+        dests.append(obj)
+    problems = []
+    it = Interp(tape=tape)
+    try:
+        it.run(p1)  # buffered: no destination exists yet
+        add_destinations(*dests)
+        it.forest = []
+        it.run(p2)
+    except BaseException as e:
+        problems.append("logging raised %r" % (e,))
+    problems.extend(v["msg"] for v in it.violations if v["msg"].startswith("eliot API call"))
+    failures, hits_report = account(tape, names, "ref", problems)
+    c = res["counters"]
+    c["prebuffered_runs"] = c.get("prebuffered_runs", 0) + 1
+    c["failed_deliveries"] = c.get("failed_deliveries", 0) + failures
+    c["offers_checked"] = c.get("offers_checked", 0) + sum(1 for e in tape.entries if e["k"] == "msg")
+    res["evals"] += 1
+    if failures:
+        res["nontrivial"].append(h(["pre", gen.prog_shape(p1), gen.prog_shape(p2), [d[3] for d in dspec if d[0] == "bad"]]))
+    if problems:
+        res["violations"].append({"msg": problems[0], "mech": None, "detail": {"label": "prebuffered", "problems": problems[:8], "buffered_program": p1,
+                                                                               "later_program": p2, "masks": [d[3] for d in dspec if d[0] == "bad"]}})
+
+
+def _walk(nodes):
+    for n in nodes:
+        yield n
+        for ch in n.get("children", []):
+            for x in _walk([ch]):
+                yield x
+
+
+def part_threads(spec, res):
+    """Several threads log concurrently while destinations fail: accounting must hold for every interleaving."""
+    rng = random.Random("%s:C08:thr:%d" % (spec["seed"], spec["i"]))
+    sched.instrument([_output])
+    nthreads = rng.choice([2, 2, 3])
+    nmsg = rng.choice([1, 2])
+    nbad = rng.choice([1, 1, 2])
+    masks = []
+    for j in range(nbad):
+        r = rng.random()
+        if r < 0.4:
+            masks.append(("all", lambda i: True))
+        elif r < 0.7:
+            masks.append(("even", lambda i: i % 2 == 0))
+        else:
+            s = frozenset(i for i in range(40) if rng.random() < 0.5)
+            masks.append(("set%s" % sorted(s)[:6], lambda i, s=s: i in s))
+    in_action = rng.random() < 0.5
+    names = ["T%d" % t for t in range(nthreads)]
+    c = res["counters"]
+
+    def execute(plan_, label):
+        tape = Tape()
+        dests = [MaskedDestination(tape, "ref", lambda i: False, None)]
+        for j, (desc, pred) in enumerate(masks):
+            nm = "bad%d" % j
+            dests.insert(rng.randint(0, len(dests)) if False else (j % (len(dests) + 1)),
+                         MaskedDestination(tape, nm, pred, (lambda i, nm=nm: excs.DestFault("%s call %d" % (nm, i)))))
+        add_destinations(*dests)
+        logged = {t: [] for t in range(nthreads)}
+
+        def worker(t):
+            def run():
+                if in_action and t == 0:
+                    with start_action(action_type="thr:act", t=t, ms=-1):
+                        for s in range(nmsg):
+                            log_message(message_type="thr:m", t=t, ms=s)
+                            logged[t].append(s)
+                else:
+                    for s in range(nmsg):
+                        log_message(message_type="thr:m", t=t, ms=s)
+                        logged[t].append(s)
+            return run
+        try:
+            st, errs = sched.run_schedule(plan_, {"T%d" % t: worker(t) for t in range(nthreads)}, timeout=60.0)
+        finally:
+            for d in dests:
+                remove_destination(d)
+        res["evals"] += 1
+        c["thread_schedules_run"] = c.get("thread_schedules_run", 0) + 1
+        problems = ["thread %s raised %r" % (n, e) for n, e in errs.items()]
+        if st["deadlock"]:
+            problems.append("logging threads deadlocked: %s" % st["deadlock"])
+        elif st["aborted"]:
+            res["inconclusive"] = "schedule abandoned: %s" % st["aborted"]
+            return st
+        else:
+            per = {d.name: [e for e in tape.entries if e["k"] == "msg" and e["dest"] == d.name] for d in dests}
+            refkeys = sorted(key(e["m"]) for e in per["ref"])
+            if len(set(refkeys)) != len(refkeys):
+                problems.append("reference destination was offered some message twice")
+            for d in dests:
+                if sorted(key(e["m"]) for e in per[d.name]) != refkeys:
+                    problems.append("destination %s was offered a different set of messages than the reference (%d vs %d)" % (d.name, len(per[d.name]), len(refkeys)))
+                for t in range(nthreads):
+                    seqs = [e["m"]["ms"] for e in per[d.name] if e["m"].get("message_type") == "thr:m" and e["m"].get("t") == t]
+                    if seqs != logged[t]:
+                        problems.append("destination %s got thread %d's messages as %s, logged %s" % (d.name, t, seqs, logged[t]))
+            reports = [e["m"] for e in per["ref"] if is_report(e["m"])]
+            reasons = [r.get("reason") for r in reports]
+            nfail = 0
+            for d in dests:
+                for e in per[d.name]:
+                    if e.get("failed") and not is_report(e["m"]):
+                        nfail += 1
+                        text = "%s call %d" % (d.name, e["call"])
+                        k = reasons.count(text)
+                        if k != 1:
+                            problems.append("failed delivery (%s) of message %s%s was reported %d times" % (text, e["m"]["task_uuid"][:6], e["m"]["task_level"], k))
+                        else:
+                            r = reports[reasons.index(text)]
+                            if repr(e["m"]["task_uuid"]) not in str(r.get("message")) or r.get("exception") != excs.qualname(excs.DestFault):
+                                problems.append("report for %s does not describe the affected message / exception" % text)
+            if len(reports) != nfail:
+                problems.append("%d reports for %d failed deliveries of non-report messages" % (len(reports), nfail))
+            c["failed_deliveries"] = c.get("failed_deliveries", 0) + nfail
+            res["sets"]["interleavings"].append(sched.trace_hash(st))
+            for nm, k, loc in st["fired"]:
+                res["sets"]["preemption_lines"].append(loc)
+            if st["fired"] and nfail:
+                res["nontrivial"].append(sched.trace_hash(st))
+        if problems and len(res["violations"]) < 3:
+            res["violations"].append({"msg": problems[0], "mech": None, "detail": {"label": "threads", "plan": plan_, "masks": [m[0] for m in masks],
+                                                                                   "problems": problems[:6], "schedule_kind": label}})
+        return st
+
+    base = None
+    for order in itertools.permutations(names):
+        base = execute({"order": list(order), "changes": []}, "baseline")
+        if base["aborted"]:
+            continue
+        for p in sched.one_preemption_plans(list(order), base["events"]):
+            execute(p, "1-preemption")
+            if len(res["violations"]) >= 3:
+                return
+    for p in sched.sampled_plans(rng, names, base["events"], 40 if spec["tier"] == "quick" else 400):
+        execute(p, "sampled")
+
+
 def run_case(spec):
-    res = {"evals": 0, "nontrivial": [], "counters": {}, "violations": [], "sample": None}
+    res = {"evals": 0, "nontrivial": [], "counters": {}, "violations": [], "sample": None, "sets": {"interleavings": [], "preemption_lines": []}}
+    if spec["part"] == "prebuffered":
+        part_prebuffered(spec, res)
+        return res
+    if spec["part"] == "threads":
+        part_threads(spec, res)
+        return res
     if spec["part"] == "random":
         for i in range(spec["lo"], spec["hi"]):
             rng = random.Random("%s:C08:%d" % (spec["seed"], i))
@@ -218,4 +401,6 @@ def finalize(agg, tier):
     c = agg["counters"]
     if c.get("failed_deliveries", 0) < 1000 or c.get("failures_while_delivering_reports", 0) < 100:
         return "too few failed deliveries / failures on reports observed"
+    if c.get("prebuffered_runs", 0) < 100 or c.get("thread_schedules_run", 0) < 500:
+        return "too few prebuffered runs / thread schedules"
     return None
